@@ -46,7 +46,7 @@ def admit_formula(n, syscap="self.system_capacity", syspop="self.simulation.numb
 
 def check(ctx):
     P = ctx.program
-    iters = (0, 1, 2) if ctx.tier == "thorough" else (0, 1)
+    iters = (0, 1)
     arrival_guard(ctx, P, iters)
     system_population(ctx, P, iters)
     transfer_guard(ctx, P, iters)
